@@ -258,11 +258,17 @@ func (bs *BlindSignature) fromBytes(bytes []byte, c *math.Curve) error {
 	bs.a = make([]*math.G1, len(rbs.A))
 	for i := 0; i < len(rbs.A); i++ {
 		bs.a[i], err = c.NewG1FromBytes(rbs.A[i])
+		if err != nil {
+			return err
+		}
 	}
 
 	bs.b = make([]*math.G1, len(rbs.B))
 	for i := 0; i < len(rbs.B); i++ {
 		bs.b[i], err = c.NewG1FromBytes(rbs.B[i])
+		if err != nil {
+			return err
+		}
 	}
 
 	return nil
@@ -403,6 +409,10 @@ func UnBlind(pp *PP, pk PK, σ *Signature, h *math.G1, msg []*math.Zr, z *math.Z
 	hPrime := σ.b.Copy()
 	hPrime.Add(σ.a.Mul(negZ))
 
+	if pk.X == nil || len(pk.Y) < len(msg) {
+		return nil, fmt.Errorf("public key has %d components but the message has %d", len(pk.Y), len(msg))
+	}
+
 	E := pk.X.Copy()
 	for i := 0; i < len(msg); i++ {
 		E.Add(pk.Y[i].Mul(msg[i]))
@@ -433,6 +443,10 @@ func (sigPoK *SigPoK) fromBytes(c *math.Curve, bytes []byte) error {
 	var rspok RawSigPok
 	if _, err := asn1.Unmarshal(bytes, &rspok); err != nil {
 		return fmt.Errorf("malformed proof of signature knowledge: %v", err)
+	}
+
+	if len(rspok.Data) != 5 {
+		return fmt.Errorf("malformed proof of signature knowledge: expected 5 elements but got %d", len(rspok.Data))
 	}
 
 	sigPoK.ψ = PoKofSignaturePoCorrectForm{}
@@ -717,6 +731,13 @@ func (ξ *BlindCorrectFormProof) Bytes() []byte {
 }
 
 func (ξ *BlindCorrectFormProof) Verify(c *math.Curve, n int, a, b []*math.G1, cm *math.G1, g *math.G1, g0 *math.G1, h *math.G1, u *math.G1, gs []*math.G1) error {
+	if len(a) != n || len(b) != n || len(gs) < n {
+		return fmt.Errorf("expected %d ciphertexts but got %d and %d", n, len(a), len(b))
+	}
+	if len(ξ.x) != n || len(ξ.y) != n || len(ξ.d) != n || len(ξ.f) != n {
+		return fmt.Errorf("expected a proof for %d ciphertexts but got vectors of size %d, %d, %d, %d", n, len(ξ.x), len(ξ.y), len(ξ.d), len(ξ.f))
+	}
+
 	digest := randomOracleForBlindingProof(n, ξ.d, ξ.f, ξ.s, a, b, cm, g, g0, h, u, gs)
 	e := c.HashToZr(digest)
 
@@ -831,6 +852,10 @@ func (ψ *PoKofSignaturePoCorrectForm) Verify(c *math.Curve, ν, hε *math.G1, g
 }
 
 func (ψ *PoKofSignaturePoCorrectForm) checkcommitmentForm(c *math.Curve, e *math.Zr, g2 *math.G2, X *math.G2, κ *math.G2, Y []*math.G2) error {
+	if len(ψ.x) > len(Y) {
+		return fmt.Errorf("expected at most %d responses but got %d", len(Y), len(ψ.x))
+	}
+
 	left := g2.Mul(ψ.y)
 	for i := 0; i < len(ψ.x); i++ {
 		left.Add(Y[i].Mul(ψ.x[i]))
